@@ -9,7 +9,10 @@ MN(m) == IF m <= 12 THEN MonthNameEn[m] ELSE "Smarch"
 Texts(t) == { DateStr(t[1], t[2], t[3]), ToString(t[2]) \o "/" \o ToString(t[3]) \o "/" \o ToString(t[1]),
               MN(t[2]) \o " " \o ToString(t[3]) \o ", " \o ToString(t[1]), ToString(t[3]) \o " " \o MN(t[2]) \o " " \o ToString(t[1]),
               MN(t[2]) \o " " \o ToString(t[3]), "from " \o DateStr(t[1], t[2], t[3]) \o " to " \o DateStr(t[1] + 1, 1, 1),
-              DateStr(t[1], t[2], t[3]) \o " at 25:00" }
+              DateStr(t[1], t[2], t[3]) \o " at 25:00",
+              ToString(t[2]) \o "/" \o ToString(t[3]) \o "/" \o ToString(t[1]) \o " 8am to 9am", MN(t[2]) \o " " \o ToString(t[3]) \o " in the morning",
+              ToString(t[2]) \o "/" \o ToString(t[3]) \o "/" \o ToString(t[1]) \o " at 8:30am", MN(t[2]) \o " " \o ToString(t[3]) \o " from 2pm to 4:30pm",
+              "from " \o MN(t[2]) \o " " \o ToString(t[3]) \o " 10pm to 2am" }
 BadTimes == {"24:01", "25:00", "12:60", "23:59:60", "13 pm", "0 am", "99:99", "12:30:99 pm"}
 Cases == { [text |-> x, culture |-> cul, ref |-> "2019-03-10T12:00:00"] : x \in (UNION { Texts(t) : t \in BadYMD }) \cup BadTimes, cul \in {"en-us"} }
          \cup { [text |-> Pad2(t[3]) \o "/" \o Pad2(t[2]) \o "/" \o ToString(t[1]), culture |-> cul, ref |-> "2019-03-10T12:00:00"] : t \in BadYMD, cul \in {"fr-fr", "es-es", "de-de", "pt-br", "it-it", "nl-nl"} }
